@@ -16,9 +16,13 @@
     of leaf queues; deficit of leaf queues; priority mass missing from the slot holders],
     compared lexicographically ([lexlt], well-founded).
 
+    Section 4: the job order.  The allocate action and the simulated allocation of every reclaim
+    scenario pop their jobs from ONE order function ([order_fn], utils.JobsOrderByQueues) handed the
+    SAME jobs ([all_pending], common.GetJobsToAllocate); the statements hold for EVERY order function.
+
     NOT PROVED: [C15_general] (gangs, several resources, deep hierarchies) - see the end. *)
 From Coq Require Import List ZArith QArith Bool.
-From KaiV Require Import Model.ClosedSystem Proofs.ClosedSystem.
+From KaiV Require Import Model.ClosedSystem Proofs.ClosedSystem Proofs.ClosedSystemOrder.
 Import ListNotations.
 Open Scope Z_scope.
 
@@ -142,6 +146,75 @@ Theorem C15_without_slot_keeping_refuted :
   exists p, wf_paramsb p = true /\ ~ no_lasso (redecide_system (1, 1) p).
 Proof. exact redecide_lasso. Qed.
 Print Assumptions C15_without_slot_keeping_refuted.
+
+(** 4. The job order shared by allocate and by the solver's simulation (order consistency).
+    Setting: the eviction only frees the slot (the nomination holds nothing in the next cycle, as in
+    [redecide_system]); a reclaim decision is taken only if the gate lets it through AND the simulated
+    allocation over the evicted state places the reclaimer and not the victim ([reclaim_sim]); the
+    cluster is full when reclaim runs (in the class a job is pending after allocate only if no slot is
+    free).  [o] is ANY pop order that only yields jobs it was given. *)
+
+(** 4a. The simulation refuses exactly what the next allocate would undo: if the evicted pod is the
+    first job the order pops on the evicted state, the scenario is rejected. *)
+Theorem C15_simulation_refuses_what_allocate_would_undo :
+  forall m o p s j v,
+    order_sound o -> free p s = 0 ->
+    first_pop o p (remove1 v s) = Some v ->
+    reclaim_sim m o all_pending p s j v = None.
+Proof. exact sim_refuses_victim_first. Qed.
+Print Assumptions C15_simulation_refuses_what_allocate_would_undo.
+
+(** 4b. Order consistency: a reclaim that went through the simulation over the same order and the
+    same jobs as the allocate action is NOT undone by the next allocate: the freed slot goes to the
+    first job the order pops, that job is not the evicted pod, nothing else is placed, the evicted pod
+    stays pending. *)
+Theorem C15_shared_order_evicted_pod_not_rebound :
+  forall m o p s j v,
+    order_sound o -> nodupb s = true -> free p s = 0 ->
+    forall s1, reclaim_sim m o all_pending p s j v = Some s1 ->
+    s1 = remove1 v s
+    /\ exists x, first_pop o p (remove1 v s) = Some x /\ x <> v /\ In x (pending p (remove1 v s))
+                 /\ allocate o p s1 = x :: remove1 v s
+                 /\ mem v (allocate o p s1) = false.
+Proof. exact shared_order_not_rebound. Qed.
+Print Assumptions C15_shared_order_evicted_pod_not_rebound.
+
+(** 4c. ... and when that first job is the reclaimer itself, "reclaim, then allocate" IS the decision
+    [DReclaim j v] of the slot-keeping relation (the assumption of section 1 is then a theorem), so
+    the rank of C15_rank_decreases strictly decreases and the state differs from the one before. *)
+Theorem C15_shared_order_reclaim_decreases_rank :
+  forall m o p s j v s1,
+    order_sound o -> nodupb s = true -> free p s = 0 ->
+    wf_paramsb p = true -> wf_multb m = true ->
+    reclaim_sim m o all_pending p s j v = Some s1 ->
+    first_pop o p (remove1 v s) = Some j ->
+    lexlt (rank p (allocate o p s1)) (rank p s) /\ allocate o p s1 <> s.
+Proof. exact shared_order_rank. Qed.
+Print Assumptions C15_shared_order_reclaim_decreases_rank.
+
+(** 4d. When the simulation is handed FEWER jobs than allocate (only the pending jobs of the
+    preemptor's and the victim's queues: seeded change C15-2) the statement of 4b is false and the
+    system has a lasso: in the world of seeded/C15-2/README.md, with an order that ranks a department
+    through its first job, the pending job of a sibling queue ranks the reclaimer's department behind
+    the victim's in allocate but is invisible to the simulation: reclaim evicts b-run2 (state s0 ->
+    s1), the next allocate binds it again (s1 -> s0), for ever (period 2 in decisions, every cycle
+    returns to the state it started from); the simulation over the same jobs as allocate refuses the
+    eviction. *)
+Definition C15_no_lasso_any_simulated_job_set : Prop :=
+  forall m o js p, order_sound o -> wf_paramsb p = true -> wf_multb m = true ->
+  no_lasso (ordered_system m o js p).
+Theorem C15_different_job_sets_refuted :
+  exists o p s0 s1 j v,
+    order_sound o /\ wf_paramsb p = true /\ nodupb s0 = true /\ free p s0 = 0
+    /\ reclaim_sim (1, 1) o scenario_queues_only p s0 j v = Some s1
+    /\ allocate o p s1 = s0
+    /\ reclaim_sim (1, 1) o all_pending p s0 j v = None
+    /\ ~ no_lasso (ordered_system (1, 1) o scenario_queues_only p).
+Proof. exact different_job_sets_lasso. Qed.
+Print Assumptions C15_different_job_sets_refuted.
+Theorem C15_no_lasso_any_simulated_job_set_refuted : ~ C15_no_lasso_any_simulated_job_set.
+Proof. exact any_job_set_refuted. Qed.
+Print Assumptions C15_no_lasso_any_simulated_job_set_refuted.
 
 (** 3c. The general statement: gangs (atomic jobs of any size), cpu / memory / gpu, queue
     forests of any depth, the full reclaim gate of the proportion plugin (model of C07),
